@@ -40,7 +40,7 @@ CHECKS = {
          "More than 4 tracked peers (random subset of map order) is not enumerated; hang + caller deadline coincidences accept either allowed outcome.", "2.4 C09"),
  "C10": ("E1-netx", "model_checking",
          "exhaustive enumeration of the request input product (origin x amount relative to tail/head incl. overflow, hashes, raw frames) against the real ExchangeServer over a real pruned store behind a recording proxy",
-         "All (origin, amount) pairs over 12 x 9 boundary values, hash and raw-byte requests, against stores [5..30], [1..12], [20..150], empty (thorough: [40..200], [1..70]); deviation bound 1: the store grows by {3,100} headers right after the k-th store call of a range request, for every k its fault-free run makes, and the k-th store call stalls until the context the server gave it ends (the handler must be released by the server's own timeout); oracle on reply shape/content and on work: headers asked from the store <= min(amount,64), no store call outside the requested heights, datastore reads bounded.",
+         "All (origin, amount) pairs over 12 x 9 boundary values, hash and raw-byte requests, against stores [5..30], [1..12], [20..150], empty (thorough: [40..200], [1..70]); deviation bound 1: the store grows by {3,100} headers right after the k-th store call of a range request, for every k its fault-free run makes, and the k-th store call stalls until the context the server gave it ends (the handler must be released by the server's own timeout); two-request histories on one server instance: {head, range ending at the head, hash of the head}, then the store's head side is rolled back by 1 or 3 headers and re-grown on another fork, then {head, range, hash of the new head, hash of the deleted head} (24 histories): every OK body is the store's current header; oracle on reply shape/content and on work: headers asked from the store <= min(amount,64), no store call outside the requested heights, datastore reads bounded.",
          "Work measured at the Store interface and as datastore reads of the real store.", "2.4 C10"),
  "C11": ("E1-netx", "model_checking",
          "exhaustive enumeration of payload x verifier-outcome classes on the real topic validator, plus the same classes through real gossipsub (delivery and relay observed)",
